@@ -183,6 +183,14 @@ def gen(ctx, seed, tier):
     return cases
 
 
+def spec_match(case, spec_line, impl_obs):
+    """a spec line 'out=NULL|s:<hex>' (allocation-failure scripts) admits NULL or exactly the expansion"""
+    sl = spec_line.strip()
+    if sl.startswith("out=NULL|"):
+        return impl_obs.strip() in ("out=NULL", "out=" + sl[len("out=NULL|"):])
+    return vlib.spec_match(spec_line, impl_obs)
+
+
 def corpus(ctx):
     p = os.path.join(vlib.VERIF, "corpus", "C16.txt")
     if not os.path.exists(p):
